@@ -14,6 +14,7 @@ use std::str::FromStr;
 pub fn gens() -> Vec<Gen> {
     vec![
         Gen { name: "c02.structural", prop: "C02", tags: &["alg", "key", "resolver", "swap", "verify_sd_jwt", "src/verifier.rs"], cases: cases_structural, check },
+        Gen { name: "c02.json_envelope", prop: "C02", tags: &["envelope", "json", "signatures", "general", "parse_json", "src/lib.rs"], cases: cases_envelope, check },
         Gen { name: "c02.padding", prop: "C02", tags: &["pad", "json", "parse_json", "src/lib.rs"], cases: cases_padding, check },
         Gen { name: "c02.chars", prop: "C02", tags: &["char", "subst", "signature"], cases: cases_chars, check },
     ]
@@ -134,6 +135,42 @@ fn cases_structural(_rng: &mut Rng, sink: &mut dyn FnMut(J) -> bool) {
             for m in muts {
                 if !sink(case_of(&cfg, m)) {
                     return;
+                }
+            }
+        }
+    }
+}
+
+/// JSON envelopes whose protected / payload / signature members are removed, null, blank or
+/// replaced, with and without extra JWS-looking members: nothing but the issuer-signed
+/// (protected, payload, signature) triple may be accepted.
+fn cases_envelope(_rng: &mut Rng, sink: &mut dyn FnMut(J) -> bool) {
+    let extras = [
+        json!({}),
+        json!({"signatures": []}),
+        json!({"signatures": [{}]}),
+        json!({"signatures": [{"protected": "", "signature": ""}]}),
+        json!({"signatures": [{"protected": "$protected", "signature": "AA"}]}),
+        json!({"signatures": [{"protected": "$none", "signature": ""}]}),
+        json!({"signatures": [{"protected": "$protected", "signature": "$signature2"}]}),
+        json!({"header": {"alg": "none"}}),
+        json!({"header": {"kid": "k1"}, "unprotected": {"alg": "none"}}),
+        json!({"signature": null, "signatures": null}),
+    ];
+    let states = ["removed", "null", "empty", "other"];
+    for (alg, holder) in [("ES256", None), ("EdDSA", None), ("HS256", None), ("ES256", Some("es256"))] {
+        let cfg = base_cfg("json", alg, holder);
+        for members in [vec!["protected", "signature"], vec!["signature"], vec!["protected"], vec!["payload"], vec!["protected", "payload", "signature"]] {
+            for state in states {
+                for extra in &extras {
+                    for payload in ["same", "forged"] {
+                        if members.contains(&"payload") && payload == "forged" {
+                            continue;
+                        }
+                        if !sink(case_of(&cfg, json!({"kind": "json_envelope", "members": members, "state": state, "extra": extra, "payload": payload}))) {
+                            return;
+                        }
+                    }
                 }
             }
         }
@@ -480,6 +517,64 @@ pub fn check(case: &J) -> Verdict {
             Out::Ok(_) => Verdict::Pass,
             o => fail(format!("untouched presentation -> {}", o.brief()), "accepted (control)"),
         };
+    }
+    if m["kind"] == "json_envelope" {
+        if cfg.format != "json" {
+            return Verdict::Trivial;
+        }
+        let Ok(mut env) = serde_json::from_str::<J>(&p.to_json()) else { return Verdict::Trivial };
+        // a second, unrelated signature value (of another token of the same issuer)
+        let mut cfg2 = cfg.clone();
+        cfg2.claims = base_claims(1);
+        let sig2 = cfg2.issue_parts().ok().map(|(_, q)| q.signature_b64().to_string()).unwrap_or_default();
+        if m["payload"] == "forged" {
+            let Some(mut pl) = p.payload() else { return Verdict::Trivial };
+            pl.insert("admin".into(), json!(true));
+            env["payload"] = json!(b64e(jstr(&J::Object(pl)).as_bytes()));
+        }
+        for member in m["members"].as_array().cloned().unwrap_or_default() {
+            let Some(name) = member.as_str() else { continue };
+            match m["state"].as_str().unwrap_or("removed") {
+                "removed" => {
+                    env.as_object_mut().unwrap().shift_remove(name);
+                }
+                "null" => env[name] = J::Null,
+                "empty" => env[name] = json!(""),
+                _ => env[name] = json!(if name == "signature" { sig2.clone() } else { "e30".to_string() }),
+            }
+        }
+        let none_header = b64e(br#"{"alg":"none"}"#);
+        fn fill(v: &J, prot: &str, none: &str, sig2: &str) -> J {
+            match v {
+                J::String(s) if s == "$protected" => json!(prot),
+                J::String(s) if s == "$none" => json!(none),
+                J::String(s) if s == "$signature2" => json!(sig2),
+                J::Array(a) => J::Array(a.iter().map(|e| fill(e, prot, none, sig2)).collect()),
+                J::Object(o) => J::Object(o.iter().map(|(k, e)| (k.clone(), fill(e, prot, none, sig2))).collect()),
+                other => other.clone(),
+            }
+        }
+        for (k, v) in m["extra"].as_object().cloned().unwrap_or_default() {
+            env[k] = fill(&v, p.header_b64(), &none_header, &sig2);
+        }
+        let text = jstr(&env);
+        // without key binding expectations (a missing signer must not be accepted in any mode), and with
+        for (a, n) in [(None, None), (aud, nonce)] {
+            match sut::verify_with(&text, &J::String(cfg.alg.clone()), a, n, "json") {
+                Out::Err(_) => {}
+                Out::Ok(v) => {
+                    return fail(
+                        format!("ACCEPTED a JSON envelope that carries no issuer-signed (protected, payload, signature) triple: {} -> claims {}", short(&text, 500), short(&jstr(&v), 200)),
+                        "rejected with an error",
+                    )
+                }
+                Out::Panic(msg) => return fail(format!("PANIC: {msg}"), "rejected with an error"),
+            }
+            if aud.is_none() {
+                break;
+            }
+        }
+        return Verdict::Pass;
     }
     let Some((tampered, key)) = mutate(&cfg, &p, m) else { return Verdict::Trivial };
     if tampered == p && key == J::String(cfg.alg.clone()) {
